@@ -392,12 +392,19 @@ pub fn generate_program_biased(rng: &mut Rng, case: &mut Case, thorough: bool, f
     // another bank in mid-block and carries on with what that bank holds behind the write)
     if cart_type != 0 {
         let pre = rng.below(3) as usize;
+        // one program in four remaps through a 16-bit store (LD (a16),SP with both bytes landing on ROM-bank registers: the
+        // first byte maps the new bank, the second writes the same number again); same layout in every bank
+        let word_store = rng.chance(1, 4);
         for b in 1..banks {
             {
                 let to = 1 + rng.below(banks as u64 - 1) as u8;
                 let mut r = Asm::new(0x4400);
                 r.emit(&vec![0x0cu8; pre]);
-                if rng.chance(1, 4) {
+                if word_store {
+                    // LD HL,SP+0; LD SP,to|to<<8; LD (0x2xff),SP; -- continuation: LD SP,HL; LD HL,0xC100
+                    r.emit(&[0xf8, 0x00, 0x31, to, to, 0x08, 0xff, 0x20 + rng.below(0x1f) as u8]);
+                    r.emit(&[0xf9, 0x21, 0x00, 0xc1]);
+                } else if rng.chance(1, 4) {
                     // upper bank bits (MBC1, large ROMs) / RAM bank or RTC select (MBC3: no remapping, the block carries on)
                     r.emit(&[0x3e, rng.below(4) as u8, 0xea, 0x00, 0x40 + rng.below(0x20) as u8]);
                 } else {
